@@ -24,6 +24,11 @@ def candidates():
         if d % 3 == 0:
             out["sqrt<elastic<%d,signed char>>" % d] = ("sqrt", "c19::sqrt_elastic<%d,signed char>" % d)
             out["sqrt<elastic<%d,unsigned>>" % d] = ("sqrt", "c19::sqrt_elastic<%d,unsigned>" % d)
+    for d, n, nn in [(7, "unsigned", "u"), (8, "unsigned", "u"), (31, "unsigned", "u"), (33, "unsigned", "u"), (63, "unsigned", "u"), (65, "unsigned", "u"), (127, "unsigned", "u"), (129, "unsigned", "u"), (200, "unsigned", "u"),
+                     (201, "unsigned", "u"), (7, "int", "i"), (40, "int", "i"), (64, "int", "i"), (127, "int", "i"), (130, "int", "i"), (201, "int", "i"), (250, "int", "i"), (96, "unsigned char", "u8"), (97, "unsigned short", "u16")]:
+        out["sqrt<wide<%d,%s>>" % (d, nn)] = ("sqrt", "c19::sqrt_type<cnl::wide_integer<%d,%s>>" % (d, n))
+    for tc, tn in (("cnl::rounding_integer<int,cnl::nearest_rounding_tag>", "rounding_i32"), ("cnl::overflow_integer<unsigned,cnl::saturated_overflow_tag>", "overflow_u32"), ("cnl::static_integer<40>", "static40")):
+        out["sqrt<%s>" % tn] = ("sqrt", "c19::sqrt_type<%s>" % tc)
     for tc, tn in REPS:
         for e in range(-60, 61, 2):
             out["sqrt<scaled<%s,%d>>" % (tn, e)] = ("sqrt", "c19::sqrt_scaled<%s,%d>" % (tc, e))
@@ -62,6 +67,7 @@ def run(tier, seed, only=None):
     res = core.Result("C19", tier, seed)
     ks = [k for k in load()["kernels"] if k["desc"].startswith("sqrt<") and "scaled" not in k["desc"]]  # every built-in and elastic kernel, always
     ks += select("sqrt", tier, seed, 40, 150)
+    ks += [k for k in load()["kernels"] if k["desc"].startswith(("sqrt<wide<", "sqrt<rounding", "sqrt<overflow", "sqrt<static"))]
     rk = [k for k in load()["kernels"] if k["kind"] == "sqrt" and ",r" in k["desc"]]
     ks += rk if tier == "thorough" else rk[seed % 2::2]   # other radixes: half of them per seed in quick
     seen = set()
